@@ -33,6 +33,7 @@ REQUIRED = ["packet_ins", "buffered", "unbuffered_pool_full", "released_by_packe
             "ids_reused_after_release", "advertised_buffer_counts_read",
             "packet_outs_with_buffer_id_and_data", "stale_or_bogus_ids_in_flow_mods",
             "stale_or_bogus_ids_in_packet_outs_carrying_data",
+            "buffer_ids_used_with_an_action_the_switch_does_not_know",
             "padded_frames_missing_the_table",
             "misses_on_a_port_that_may_not_cause_packet_ins"]
 TIMEOUT = {"quick": 900, "thorough": 7200}
@@ -320,6 +321,25 @@ def run_history (case, rep):
           xid=xid, buffer_id=bid, in_port=0xffff, actions=acts,
           data=frame(998000 + xid, CTRL_DST[0][:5] + b"\xee", 30)))
         rep.count("stale_or_bogus_ids_in_packet_outs_carrying_data")
+      elif k in ("po", "fm") and (op[1] * 5 + op[2]) % 11 == 3:
+        # the action list that comes with the id holds an action this switch
+        # does not know (some vendor's): an error is in order; the id has been
+        # used all the same (what, if anything, is sent is not judged)
+        both = True
+        acts = [dict(type=0, port=2, max_len=0),
+                dict(type=0xffff, vendor=0x2320, body=b"\0\x01\0\0\0\0\0\0")]
+        if k == "po":
+          raw_msg = ofwire.enc_message("packet_out", dict(
+            xid=xid, buffer_id=bid, in_port=0xffff, actions=acts, data=b""))
+        else:
+          extra_flows += 1
+          m = dict(ALLM); m["in_port"] = 60000 - extra_flows
+          m["wildcards"] = OM.FW_ALL & ~OM.FW_IN_PORT
+          raw_msg = ofwire.enc_message("flow_mod", dict(
+            xid=xid, match=m, cookie=0, command=0, idle_timeout=0,
+            hard_timeout=0, priority=1, buffer_id=bid, out_port=0xffff, flags=0,
+            actions=acts))
+        rep.count("buffer_ids_used_with_an_action_the_switch_does_not_know")
       elif k == "po" and (op[1] * 3 + op[2]) % 7 == 0:
         # a packet_out that names the buffer *and* carries data: the id is
         # used (which of the two is sent is not judged)
